@@ -1097,3 +1097,51 @@ Proof.
     apply Nat.leb_gt in E. unfold create.
     destruct (position (slots t)); [destruct (_ && _)|]; cbn [fst smap length]; lia.
 Qed.
+
+(* ------------------------------------------------------------------ *)
+(** * Stream identifiers: a stream the peer has opened (accepted or refused) is never idle again *)
+
+Inductive idev := IdHeaders (sid : N) | IdEnd (sid : N) | IdDrain.
+
+(** ghost: the ids for which HEADERS was accepted or refused so far *)
+Definition idstep (st : ids * list N) (e : idev) : ids * list N :=
+  let '(s, seen) := st in
+  match e with
+  | IdHeaders sid =>
+    if existsb (N.eqb sid) (open_ids s) then (s, seen)
+    else match on_new_headers s sid with
+         | (s', HConnError) => (s', seen)
+         | (s', _) => (s', sid :: seen)
+         end
+  | IdEnd sid => (on_stream_end s sid, seen)
+  | IdDrain => (mkids (highest s) (last s) (open_ids s) (maxc s) true, seen)
+  end.
+
+Definition ids_inv (st : ids * list N) : Prop := Forall (fun sid => sid <= highest (fst st)) (snd st).
+
+Lemma idstep_inv st e : ids_inv st -> ids_inv (idstep st e) /\ highest (fst st) <= highest (fst (idstep st e)).
+Proof.
+  destruct st as [s seen]. unfold ids_inv. cbn [fst snd]. intros H. destruct e as [sid|sid|]; cbn [idstep].
+  - destruct (existsb (N.eqb sid) (open_ids s)); [cbn [fst snd]; split; [exact H|apply N.le_refl]|].
+    unfold on_new_headers. destruct (N.odd sid && (last s <? sid)).
+    + destruct (draining s || (maxc s <=? length (open_ids s))%nat); cbn [fst snd highest];
+        (split; [constructor; [apply N.le_max_r|eapply Forall_impl; [|exact H]; intros a Ha; cbv beta in *;
+                                eapply N.le_trans; [exact Ha|apply N.le_max_l]]|apply N.le_max_l]).
+    + cbn [fst snd]. split; [exact H|apply N.le_refl].
+  - cbn [fst snd on_stream_end highest]. split; [exact H|apply N.le_refl].
+  - cbn [fst snd highest]. split; [exact H|apply N.le_refl].
+Qed.
+
+Lemma ids_run_inv evs : forall st, ids_inv st -> ids_inv (fold_left idstep evs st).
+Proof. induction evs as [|e r IH]; intros st H; [exact H|]. cbn [fold_left]. apply IH. apply idstep_inv; exact H. Qed.
+
+Lemma seen_never_idle_l evs s0 sid :
+  let '(s, seen) := fold_left idstep evs (s0, []) in
+  In sid seen -> classify s sid <> IdIdle.
+Proof.
+  pose proof (ids_run_inv evs (s0, []) (Forall_nil _)) as H.
+  destruct (fold_left idstep evs (s0, [])) as [s seen]. unfold ids_inv in H. cbn [fst snd] in H.
+  intros Hin. rewrite Forall_forall in H. specialize (H sid Hin).
+  unfold classify. destruct (existsb (N.eqb sid) (open_ids s)); [discriminate|].
+  destruct (sid <=? highest s) eqn:E; [discriminate|]. apply N.leb_gt in E. lia.
+Qed.
